@@ -133,6 +133,11 @@ theorem execOp_keepO (s : State) (me : Nat) (op : Op) (rest : List Op) (h : s.in
     have := (KeepO.refl me s).cancelR t
     cases hw : cancelR s t with
     | mk s1 b => rw [hw] at this; simp only []; exact this.finish _ _ _
+  | resume t =>
+    simp only [execOp]
+    have := (KeepO.refl me s).resume t
+    cases hw : resume s t with
+    | mk s1 b => rw [hw] at this; simp only []; exact this.finish _ _ _
   | exit => simp only [execOp]; exact KeepO.refl me s
   | throw => simp only [execOp]; exact (Woke.abort s).keepO me
   | rcleanup => simp only [execOp]; exact (Woke.abort s).keepO me
@@ -156,6 +161,21 @@ theorem execOp_keepO (s : State) (me : Nat) (op : Op) (rest : List Op) (h : s.in
                  all_goals keepo
   | join t => simp only [execOp]; repeat' split
               all_goals keepo
+
+theorem KeepO.unwindList {me : Nat} {s X : State} (h : KeepO me s X) (hic : X.inCleanup = true) (ms : List Nat) :
+    KeepO me s (unwindList me ms X) := by
+  induction ms generalizing X with
+  | nil => exact h
+  | cons m ms ih =>
+    have ks := execOp_sameC X me (.unlock m) [] (Or.inl hic)
+    exact ih (h.trans (execOp_keepO X me (.unlock m) [] hic)) (by rw [ks.inCleanup]; exact hic)
+
+theorem KeepO.fin {me : Nat} {s X : State} (h : KeepO me s X) (hic : X.inCleanup = true) : KeepO me s (fin X me) := by
+  refine KeepO.die ?_
+  unfold Tbox.C18.unwind
+  split
+  · exact h.unwindList hic _
+  · exact h
 
 /-- a blocking operation of the property -/
 def blocking : Op → Bool
@@ -199,7 +219,7 @@ theorem C18_cancelled_switch_terminates (s : State) (r : Nat) (op : Op) (rest : 
     · rename_i s1 e; rw [e] at nb; exact absurd rfl nb
     · rename_i s1 e; rw [e] at hfail
       have hf' : s1.log = s.log ++ [{ r := r, op := op, res := .fail, canc := true }] := hfail
-      rw [← hf']; simp [die]
+      rw [← hf']; exact fin_log s1 r
   unfold switchTo
   simp only [hs1, k2.2, ite_true]
   refine ⟨?_, ?_⟩
@@ -211,7 +231,7 @@ theorem C18_cancelled_switch_terminates (s : State) (r : Nat) (op : Op) (rest : 
 
 theorem runOps_keepO (me : Nat) (ops : List Op) {s : State} (hic : s.inCleanup = true) : KeepO me s (runOps me ops s) := by
   induction ops generalizing s with
-  | nil => exact (KeepO.refl me s).die
+  | nil => exact (KeepO.refl me s).fin hic
   | cons op rest ih =>
     have key := execOp_keepO s me op rest hic
     have ks := execOp_sameC s me op rest (Or.inl hic)
@@ -220,7 +240,7 @@ theorem runOps_keepO (me : Nat) (ops : List Op) {s : State} (hic : s.inCleanup =
     · rename_i s1 e; rw [e] at key ks
       exact key.trans (ih (s := s1) (by rw [ks.inCleanup]; exact hic))
     · rename_i s1 e; rw [e] at key; exact key
-    · rename_i s1 e; rw [e] at key; exact key.die
+    · rename_i s1 e; rw [e] at key ks; exact key.fin (by rw [ks.inCleanup]; exact hic)
 
 theorem switchTo_keepO (s : State) (r : Nat) (hic : s.inCleanup = true) : KeepO r s (switchTo s r) := by
   have k1 : KeepO r s (s.setR r { s.R r with state := .running, started := true }) := (KeepO.refl r s).setR r _ (Or.inl rfl)
